@@ -1292,7 +1292,38 @@ fn c10_long_exponents(r: &Runner) {
     });
 }
 
+/// Dense (structureless) operands at EVERY difference of bit lengths 0..=72 below a dense modulus: the first Lehmer step
+/// sees prefixes whose quotient has that many bits; conditions on "the quotient of the prefixes vs the quotient of the
+/// full numbers" live at particular gaps (25..31 bits for a 32-bit short-sequence shortcut) that neither extreme-limb
+/// alphabets nor equal-length operands produce.
+fn c10_bit_gaps(r: &Runner) {
+    if SWEEP {
+        return;
+    }
+    for bits in [128usize, 192, 256] {
+        let n = nlimbs(bits);
+        let g = golden(n * 80);
+        let mut pairs: Vec<(Limbs, Limbs)> = vec![];
+        for salt in 0..64usize {
+            let m: Limbs = (0..n).map(|i| g[(i + salt * n) % g.len()] | if i + 1 == n { 1 << 63 } else { 0 }).collect();
+            let a0: Limbs = (0..n).map(|i| g[(i + salt * n + 7 * n + 3) % g.len()] | if i + 1 == n { 1 << 63 } else { 0 }).collect();
+            for gap in 0..=72usize {
+                let a = big(&a0) >> gap;
+                pairs.push((to_limbs(&a, bits), m.clone()));
+            }
+        }
+        r.universe(&format!("dense operands at every bit-length gap 0..=72 below a dense modulus ({} pairs): inv_mod, reduce_mod", pairs.len()), bits, pairs.len(), |i, l| {
+            let (a, m) = (vu(&pairs[i].0), vu(&pairs[i].1));
+            l.states(1);
+            exec(l, bits, Op::inv_mod, &[a.clone(), m.clone()]);
+            exec(l, bits, Op::inv_mod, &[m.clone(), a.clone()]);
+            exec(l, bits, Op::reduce_mod, &[m.clone(), a.clone()]);
+        });
+    }
+}
+
 fn c10(r: &Runner) {
+    c10_bit_gaps(r);
     c10_periodic(r);
     c10_long_exponents(r);
     r.set_rule("S(B)^3 = all triples of all values for B <= Smax (moduli include 0, 1, 2, 2^k, 2^B-1 automatically); at wide widths all triples over (limb alphabet product + P'(B)); inv_mod / reduce_mod on all pairs, and on every node of the quotient-sequence tree (inverse Euclid steps from seeds g in {1, 2, 15015, 2^64+1, 3*2^64+1, 2^128+1} with quotients {1,2,3,2^32-1,2^32,2^63,2^64-1}, every sequence with at most D deviations from the all-ones path). non-trivial = an operand is >= the modulus or the intermediate sum/product overflows BITS, or the modulus is 0");
